@@ -126,3 +126,66 @@ func TestVerifReplay(t *testing.T) {
 		t.Fatal(err)
 	}
 }
+
+// TestVerifRace: native confirmation for C16 candidates — independent library
+// calls on disjoint directories and distinct metadata objects from several
+// goroutines under the race detector, compared with the sequential results.
+func TestVerifRace(t *testing.T) {
+	if os.Getenv("VERIF_RACE") == "" {
+		t.Skip("no race replay requested")
+	}
+	base, err := os.MkdirTemp("", "vcheck-race-")
+	if err != nil {
+		t.Fatal(err)
+	}
+	defer os.RemoveAll(base)
+	const n = 4
+	dirs := make([]string, n)
+	for i := range dirs {
+		dirs[i] = fmt.Sprintf("%s/d%d", base, i)
+		os.MkdirAll(dirs[i]+"/sub", 0o755)
+		os.WriteFile(dirs[i]+"/sub/real.txt", []byte(fmt.Sprintf("content %d\r\n", i)), 0o644)
+		os.WriteFile(dirs[i]+"/other.txt", []byte("x"), 0o644)
+		os.Symlink(dirs[i]+"/sub/real.txt", dirs[i]+"/link.txt")
+		os.Symlink(dirs[i]+"/sub", dirs[i]+"/dirlink")
+	}
+	record := func(i int) string {
+		m, err := RecordArtifacts([]string{dirs[i]}, []string{"sha256"}, nil, []string{dirs[i] + "/"}, true, true)
+		if err != nil {
+			return "error: " + err.Error()
+		}
+		return vRender(len(m)) + vRender(m["sub/real.txt"]["sha256"]) + vRender(m["link.txt"]["sha256"])
+	}
+	signVerify := func(i int) string {
+		mb := &Metablock{Signed: Link{Type: "link", Name: fmt.Sprintf("n%d", i)}}
+		k := vhEdKey(i%3, true)
+		if err := mb.Sign(k); err != nil {
+			return "sign error"
+		}
+		if err := mb.VerifySignature(vhEdKey(i%3, false)); err != nil {
+			return "verify error"
+		}
+		return "ok"
+	}
+	seq := make([]string, n)
+	for i := 0; i < n; i++ {
+		seq[i] = record(i) + signVerify(i)
+	}
+	done := make(chan string, n)
+	for i := 0; i < n; i++ {
+		go func(i int) {
+			bad := ""
+			for r := 0; r < 50; r++ {
+				if got := record(i) + signVerify(i); got != seq[i] {
+					bad = fmt.Sprintf("goroutine %d: concurrent result %q differs from sequential %q", i, got, seq[i])
+				}
+			}
+			done <- bad
+		}(i)
+	}
+	for i := 0; i < n; i++ {
+		if b := <-done; b != "" {
+			t.Error(b)
+		}
+	}
+}
